@@ -42,7 +42,7 @@ AA = set(G.AA)
 # ---------------------------------------------------------------------------
 LEAVES = [None, float("nan"), float("inf"), -float("inf"), 0, 1, -7, 3.5, True, False, 2 + 3j, Fraction(1, 3), Decimal("1.5"),
           b"", b"CASSF", "", "C", "F", "CF", "CASSF", "CASSW", "CASSC", "CASS", "ASSF", "cassf", "CAS SF", "CASXF", "CASSF ", " CASSF",
-          "CÄSSF", "C\u0000F", "ACDEFGHIKLMNPQRSTVWY", "B", "CF\n", "\U0001d4b3", "c", "CAS-SF", "C.F", "CFf"]
+          "CASSY", "CASSL", "CY", "CASSK", "CASSG", "WASSF", "FASSC", "CÄSSF", "C\u0000F", "ACDEFGHIKLMNPQRSTVWY", "B", "CF\n", "\U0001d4b3", "c", "CAS-SF", "C.F", "CFf"]
 
 
 def build_obj(spec):
@@ -136,6 +136,7 @@ def obj_strategy():
         st.text(max_size=8).map(lambda s: ["text", s]),
         st.text(alphabet=G.AA + "cfwX ", max_size=10).map(lambda s: ["text", s]),
         st.text(alphabet=G.AA, max_size=8).map(lambda s: ["text", "C" + s + "F"]),
+        st.tuples(st.text(alphabet=G.AA, max_size=6), st.sampled_from(G.AA), st.sampled_from(G.AA)).map(lambda t: ["text", t[1] + t[0] + t[2]]),
         st.integers(0, 5).map(lambda i: ["npscalar", i]),
     )
     return st.recursive(
